@@ -52,6 +52,8 @@ type ReplayRec struct {
 	B    []uint64 `json:"b,omitempty"`
 }
 
+var traceFn = os.Getenv("GSE_TRACE")
+
 type fnInfo struct {
 	idx map[ssa.Value]int
 	n   int
@@ -733,6 +735,22 @@ func (fr *frame) runBlocks() {
 			if fr.in.steps > fr.in.cfg.MaxSteps {
 				panic(pathStop{"budget", fmt.Sprintf("step budget %d exhausted in %s", fr.in.cfg.MaxSteps, fr.fn)})
 			}
+			if traceFn != "" && strings.Contains(fr.fn.String(), traceFn) {
+				r := fr.visit(ins)
+				if v, ok := ins.(ssa.Value); ok {
+					fmt.Fprintf(os.Stderr, "TRACE %s: %s = %s   => %s\n", fr.fn.Name(), v.Name(), ins.String(), showValue(fr.env[fr.fi.idx[v]]))
+				} else {
+					fmt.Fprintf(os.Stderr, "TRACE %s: %s\n", fr.fn.Name(), ins.String())
+				}
+				if r == kReturn {
+					return
+				}
+				if r == kJump {
+					jumped = true
+					break
+				}
+				continue
+			}
 			switch fr.visit(ins) {
 			case kReturn:
 				return
@@ -799,6 +817,34 @@ func (fr *frame) runDefer(d *deferred) {
 	}()
 	fr.in.call(fr, d.fn, d.args)
 	ok = true
+}
+
+// storeInto assigns v to *dst. Structs and arrays are assigned element-wise in place so that
+// pointers to their fields / elements taken earlier stay valid (they alias the same memory in Go).
+func storeInto(dst *Value, v Value) {
+	switch nv := v.(type) {
+	case Struct:
+		if old, ok := (*dst).(Struct); ok && len(old) == len(nv) {
+			for i := range nv {
+				storeInto(&old[i], nv[i])
+			}
+			return
+		}
+	case Array:
+		if old, ok := (*dst).(Array); ok && len(old) == len(nv) {
+			if len(nv) > 0 {
+				if _, scalar := nv[0].(*T); scalar {
+					copy(old, nv)
+					return
+				}
+			}
+			for i := range nv {
+				storeInto(&old[i], nv[i])
+			}
+			return
+		}
+	}
+	*dst = copyVal(v)
 }
 
 type cont int
@@ -899,7 +945,7 @@ func (fr *frame) visit(instr ssa.Instruction) cont {
 				in.initStored[g] = true
 			}
 		}
-		*pp = copyVal(fr.get(instr.Val))
+		storeInto(pp, fr.get(instr.Val))
 	case *ssa.If:
 		c := fr.get(instr.Cond)
 		ct, ok := c.(*T)
